@@ -247,6 +247,12 @@ func (s *Serializer) writeSliceLength(l int, lenType SeriLengthPrefixType, errPr
 
 			return
 		}
+	case SeriLengthPrefixTypeAsUint64:
+		if err := binary.Write(&s.buf, binary.LittleEndian, uint64(l)); err != nil {
+			s.err = errProducer(err)
+
+			return
+		}
 	default:
 		panic(fmt.Sprintf("unknown slice length type %v", lenType))
 	}
@@ -825,6 +831,18 @@ func (d *Deserializer) readSliceLength(lenType SeriLengthPrefixType, errProducer
 		}
 		l = UInt32ByteSize
 		sliceLength = int(binary.LittleEndian.Uint32(d.src[d.offset : d.offset+UInt32ByteSize]))
+
+	case SeriLengthPrefixTypeAsUint64:
+		if l < UInt64ByteSize {
+			return 0, errProducer(ErrDeserializationNotEnoughData)
+		}
+		l = UInt64ByteSize
+		sliceLength64 := binary.LittleEndian.Uint64(d.src[d.offset : d.offset+UInt64ByteSize])
+		if sliceLength64 > math.MaxInt {
+			// must not wrap around as an int; no input can hold that many elements anyway
+			return 0, errProducer(ierrors.Wrapf(ErrDeserializationNotEnoughData, "denoted length %d exceeds any possible input", sliceLength64))
+		}
+		sliceLength = int(sliceLength64)
 
 	default:
 		panic(fmt.Sprintf("unknown slice length type %v", lenType))
